@@ -69,6 +69,13 @@ def make_config(seed, tier="quick"):
         # the application itself asks for a TestRequest now and then (public send_test_req)
         for _ in range(r.randint(1, 2)):
             plan.append((round(r.uniform(0, span), 3), "app_testreq", None))
+    if r.random() < 0.3:
+        # the local application keeps sending (outbound traffic says nothing about the peer being alive)
+        per = max(0.2, r.uniform(0.15, 0.8) * hb)
+        t = r.uniform(0, per)
+        while t < span + 3 * hb:
+            plan.append((round(t, 3), "app_send", None))
+            t += per
     plan.sort()
     return dict(
         early_app_testreq=r.random() < 0.15,
@@ -159,7 +166,9 @@ class WatchdogSim(PeerSim):
 
     def peer_do(self, kind, arg):
         p = self.peer
-        if not p.connected or self.phase != FAULT:
+        if self.phase != FAULT:
+            return
+        if not p.connected and kind not in ("app_send", "app_testreq"):
             return
         if kind == "hb":
             p.send("0", [], spec={"plan": "hb"})
@@ -172,6 +181,18 @@ class WatchdogSim(PeerSim):
             p.send("1", [("112", arg)], spec={"plan": "testreq", "id": arg})
         elif kind == "app_testreq":
             self.spawn(self.app_testreq("plan"), "app-testreq")
+        elif kind == "app_send":
+            self.spawn(self.app_send(), "app-send")
+
+    async def app_send(self):
+        from asyncfix import FIXMessage
+
+        self.app_id += 1
+        try:
+            await self.eut.send_msg(FIXMessage("D", {11: f"L-{self.app_id}", 55: "ES", 54: "1", 38: 1, 44: "1.0"}))
+            self.probe("local_app_send_ok")
+        except Exception as e:
+            self.probe("local_app_send_refused_" + type(e).__name__)
 
     async def app_testreq(self, why):
         try:
